@@ -15,59 +15,59 @@ open Biscuit Biscuit.Wire
 
 theorem varint_roundtrip (n : Nat) (h : n < 2^64) (rest : Bytes) :
     decodeVarint (encodeVarint n ++ rest) = some (n, rest) := by
-  sorry
+  exact wire_decodeVarint_encode n h rest
 
 theorem fields_roundtrip (fs : List Field) (h : ∀ f ∈ fs, FieldWF f) :
     decodeFields (encodeFields fs) = some fs := by
-  sorry
+  exact wire_decodeFields_encode fs h
 
 /-! ## 2. Block messages -/
 
 theorem term_roundtrip (t : ITerm) (h : TermWF t) (hl : (encodeFields (encTerm t)).length < 2^64) :
     decTerm (encodeFields (encTerm t)) = some t := by
-  sorry
+  exact wire_decTerm_enc t h hl
 
 theorem pred_roundtrip (p : IPred) (h : PredWF p) (hl : (encodeFields (encPred p)).length < 2^64) :
     decPred (encodeFields (encPred p)) = some p := by
-  sorry
+  exact wire_decPred_enc p h hl
 
 theorem rule_roundtrip (r : IRule) (h : RuleWF r) (hl : (encodeFields (encRule r)).length < 2^64) :
     decRule (encodeFields (encRule r)) = some r := by
-  sorry
+  exact wire_decRule_enc r h hl
 
 /-- **Round trip of block content** through the published schema. -/
 theorem block_roundtrip (b : BlockMsg) (h : BlockWF b) : decodeBlock (encodeBlock b) = some b := by
-  sorry
+  exact wire_decodeBlock_enc b h
 
 /-! ## 3. Operator codes: mutually inverse with the published enum numbering -/
 
 theorem unary_code_roundtrip (u : UnOp) : unaryOfCode (unaryCode u) = some u := by
-  sorry
+  exact sym_unary_code_roundtrip u
 
 theorem binary_code_roundtrip (b : BinOp) : binaryOfCode (binaryCode b) = some b := by
-  sorry
+  exact sym_binary_code_roundtrip b
 
 theorem unary_code_unique (k : Nat) (u : UnOp) (h : unaryOfCode k = some u) : unaryCode u = k := by
-  sorry
+  exact sym_unary_code_unique k u h
 
 theorem binary_code_unique (k : Nat) (b : BinOp) (h : binaryOfCode k = some b) : binaryCode b = k := by
-  sorry
+  exact sym_binary_code_unique k b h
 
 /-! ## 4. Symbols: what the builders intern is what the published rules resolve -/
 
 theorem symInsert_resolves (t : SymTable) (s : Bytes) (h : TableOK t) :
     symStr (symInsert t s).1 (symInsert t s).2 = some s ∧ TableOK (symInsert t s).1 := by
-  sorry
+  exact sym_symInsert_resolves t s h
 
 /-- Extending a table never re-binds an index that resolved before: a later block (or the
 authorizer) cannot change the meaning of an earlier block's symbols. -/
 theorem symInsert_prefix_stable (t : SymTable) (s : Bytes) (i : Nat) (x : Bytes)
     (h : symStr t i = some x) : symStr (symInsert t s).1 i = some x := by
-  sorry
+  exact sym_symInsert_prefix_stable t s i x h
 
 theorem append_prefix_stable (t ext : SymTable) (i : Nat) (x : Bytes) (h : symStr t i = some x) :
     symStr (t ++ ext) i = some x := by
-  sorry
+  exact sym_append_prefix_stable t ext i x h
 
 /-- One block: the symbols it declares are exactly the new ones, and resolving the built
 message with the table extended by them returns the caller's content, version 3. -/
@@ -75,7 +75,7 @@ theorem buildBlock_resolves (t : SymTable) (ht : TableOK t) (c : BlockContent) :
     let r := buildBlockMsg t c
     r.1 = t ++ r.2.symbols ∧ TableOK r.1 ∧ freshSymbols t r.2.symbols = true ∧
     r.2.version = some 3 ∧ resolveBlock r.1 r.2 = some c := by
-  sorry
+  exact sym_buildBlock_resolves t ht c
 
 /-- **C07, first sentence.** For every content expressible through the builders — every
 term type, sets, nested expressions, default and fresh symbols, symbols shared across
@@ -83,12 +83,12 @@ blocks — decoding block for block by the published symbol rules yields the fac
 checks, expressions and context the caller supplied. -/
 theorem build_then_resolve (cs : List BlockContent) :
     resolveBlocks [] (buildBlockMsgs [] cs) = some cs := by
-  sorry
+  exact sym_build_then_resolve cs [] sym_tableOK_nil
 
 /-! ## 5. Version gate -/
 
 theorem version_gate (v : Option Nat) : versionOk v = true ↔ v = some 3 := by
-  sorry
+  exact sym_version_gate v
 
 /-! Non-vacuity: a three-block token sharing symbols across blocks. -/
 
